@@ -16,7 +16,7 @@ RULE = ("one PRNG (VERIF_SEED). A case = (initial Root value, reader chains, his
         "store — structs, Option, Vec, keyed Vec, depth up to 6 — then a write through every writable "
         "path in turn, so every (written path, read path) pair is exercised; readers of collections either "
         "read them whole or iterate with iter_unkeyed / the keyed iterator; any field on a chain may be handed "
-        "on as a type-erased ArcField), random (random reader "
+        "on as a type-erased ArcField / Field), random (random reader "
         "subsets in random creation order, histories mixing set / patch / poke at random reachable paths, "
         "Option and Vec becoming empty and populated again, non-FIFO schedules), keyed (histories of "
         "insert / remove / reorder through the keyed field's own write guard with readers on items and "
@@ -31,7 +31,7 @@ TRUSTED = [
     "extraction to OCaml with ExtrOcamlBasic only, ocamlfind ocamlopt 4.13.1, extract/driver.ml sexp I/O",
     "harness/stores (Rust): fixed #[derive(Store, Patch)] shapes Root/Mid/Sub/Item/Leaf, a type-erased accessor "
     "layer over the public API (field getters, OptionStoreExt::unwrap, StoreFieldIterator::at_unkeyed, AtKeyed::new, "
-    "ArcField::from, Read::try_read, Write::try_write, Patch::patch, StoreField::path), one Effect::new per reader, a FIFO/"
+    "ArcField::from, Field::from, Read::try_read, Write::try_write, Patch::patch, StoreField::path), one Effect::new per reader, a FIFO/"
     "scheduled single-threaded executor installed with Executor::init_local_custom_executor",
     "modelled, not verified (Store/Sim.v, compared with the real crates on every case): reactive_graph's ArcTrigger "
     "subscriber set (ordered Vec, emptied by notify), Effect re-run/clear_sources/re-subscribe, channel wake-up; "
@@ -45,7 +45,10 @@ ASSUMPTIONS = [
     "(otherwise: open finding F-C16-e, exercised by the separate family keyed-ancestor); "
     "an item written through AtKeyed keeps its key; keys within one collection are distinct",
     "effects run on a single-threaded executor that drains all woken effects between two writes; 'woken before' "
-    "is observed as the order of first wake-ups at the executor (all schedules) and as run order (FIFO schedule)",
+    "is observed as the order of first wake-ups at the executor (all schedules) and as run order (FIFO schedule); "
+    "'readers of ancestors before readers of descendants' is demanded for every pair of notified readers whose paths "
+    "are in the proper-prefix relation (the sub-case where both lie strictly below the written field is the open "
+    "finding F-C16-g)",
     "Patch::patch is not applied across a change of a keyed collection (PatchField for Vec uses index segments)",
 ]
 
